@@ -152,6 +152,17 @@ class TypeTreeHooks(Hooks):
             recv = callee.self_val
             if fi.qualname == PARAM + '.match' and getattr(self, 'param', None) is not None:
                 return self.param
+            if fi.name == 'from_comb' and fi.cls is not None and fi.cls.name == 'PairType' and args and isinstance(args[0], (list, tuple)) \
+                    and all(isinstance(x, Obj) and '_t' in x.fields for x in args[0]) and len(args[0]) >= 2:
+                # PairType.from_comb: a right comb whose component types are the types of the items (create_type + init)
+                def comb(items):
+                    if len(items) == 2:
+                        l, r = items
+                    else:
+                        l, r = items[0], comb(items[1:])
+                    tc = TCls('pair', [l.fields['_t'], r.fields['_t']])
+                    return Obj(self.qual(tc), {'items': (l, r), '_t': tc}, tag='pair')
+                return comb(list(args[0]))
             if isinstance(recv, TCls):
                 if fi.name == 'get_anon_type':
                     return recv.anon()
